@@ -36,6 +36,14 @@ theorem IPv4_checksum_std (s : IP) (src dst : Nat) (h : IP_WF s src dst) :
   have : ipFront s ++ ([0, 0] ++ ipBack src dst) = ipHeader s [0, 0] src dst := rfl
   rw [this, ipCksum, Lemmas.Sum16.stored_bytes_eq _ (by rw [ipHeader_length _ _ _ _ rfl]; omega)]
 
+/-- **verification**: the receiver's check — `ip_calc_checksum` over the 20 header bytes `pack` emitted — gives 0 -/
+theorem IPv4_verify_zero (s : IP) (src dst : Nat) (h : IP_WF s src dst) :
+    ∃ b, (IP.pack s).2 = .ok b ∧ ipCalcChecksum (b.take 20) = .ok 0 := by
+  refine ⟨_, by rw [IP_pack_eq s src dst h], ?_⟩
+  rw [take_append_len _ _ _ (ipHeader_length _ _ _ _ (by simp)).symm, ipCalcChecksum_eq]
+  simp only [ipHeader, ipCksum]
+  rw [Lemmas.Sum16.verify_zero (ipFront s) (ipBack src dst) (by simp) (by simp)]
+
 /-- **ICMP**: the message is type, code, checksum, identifier, sequence number, payload, with the RFC 1071
     checksum of the whole message (checksum field zero) — odd and even payload lengths, up to 128 KiB -/
 theorem ICMP_checksum_std (s : ICMP) (h : ICMP_WF s) :
